@@ -4,6 +4,7 @@ import (
 	"bytes"
 	"encoding/json"
 	"fmt"
+	"github.com/q191201771/lal/pkg/rtsp"
 	"os"
 	"path/filepath"
 	"sync"
@@ -34,6 +35,7 @@ type gCfg struct {
 	Ws        bool     `json:"ws"`        // HTTP-FLV consumers over WebSocket
 	LenMode   string   `json:"lenMode"`   // units | edges
 	PushSubs  []string `json:"pushSubs"`  // relay-push targets (gated stub RTMP servers on loopback)
+	RtmpOff   bool     `json:"rtmpOff"`   // rtmp.enable = rtmps_enable = false; the publisher is an RTSP one
 	HttpsOnly bool     `json:"httpsOnly"` // the HTTP-FLV server is configured for https only (enable=false, enable_https=true)
 }
 
@@ -234,7 +236,7 @@ func (c *gConsumer) drain(sent map[int]*sentMsg) (ids []int, bad []string) {
 
 func runGroupScenario(sc *gScenario, tw *TraceWriter, tmp string, seed int64) {
 	cfg := &logic.Config{}
-	cfg.RtmpConfig.Enable = true
+	cfg.RtmpConfig.Enable = !sc.Cfg.RtmpOff
 	cfg.RtmpConfig.GopNum = sc.Cfg.GopNumR
 	cfg.RtmpConfig.SingleGopMaxFrameNum = sc.Cfg.CapR
 	cfg.RtmpConfig.MergeWriteSize = sc.Cfg.MwBytes
@@ -282,6 +284,15 @@ func runGroupScenario(sc *gScenario, tw *TraceWriter, tmp string, seed int64) {
 	}
 	sent := map[int]*sentMsg{}
 	var pub *rtmp.ServerSession
+	var rpub *rtsp.PubSession
+	delPub := func() {
+		if rpub != nil {
+			g.DelRtspPubSession(rpub)
+			rpub = nil
+		} else {
+			g.DelRtmpPubSession(pub)
+		}
+	}
 	tw.Emit(M{"ev": "reset", "sc": sc.Sc, "cfgId": sc.CfgId})
 	drainAll := func() (M, []string) {
 		del := M{}
@@ -338,15 +349,24 @@ func runGroupScenario(sc *gScenario, tw *TraceWriter, tmp string, seed int64) {
 	for _, st := range sc.Steps {
 		switch st.Name {
 		case "PubArrive":
-			pub = rtmp.NewServerSession(nullObserver{}, NewMemConn("pub"))
-			err := g.AddRtmpPubSession(pub)
+			var err error
+			if sc.Cfg.RtmpOff {
+				// the group's AvPacket -> RTMP remuxer hands its messages to the same broadcast function as
+				// OnReadRtmpAvMsg does, so the scenario's messages are fed that way
+				u, _ := base.ParseUrl("rtsp://h/live/"+stream, 554)
+				rpub = rtsp.NewPubSession(u, nil)
+				err = g.AddRtspPubSession(rpub)
+			} else {
+				pub = rtmp.NewServerSession(nullObserver{}, NewMemConn("pub"))
+				err = g.AddRtmpPubSession(pub)
+			}
 			for _, o := range targets {
 				o := o
 				waitFor(3*time.Second, func() bool { o.mu.Lock(); defer o.mu.Unlock(); return len(o.parked) > 0 })
 			}
 			tw.Emit(M{"ev": "PubArrive", "ok": err == nil})
 		case "PubLeave":
-			g.DelRtmpPubSession(pub)
+			delPub()
 			// relay push ends with the publisher: attached sessions are closed by lal; attempts the
 			// targets have not accepted yet are refused now.  Both report back asynchronously.
 			for _, o := range targets {
@@ -464,8 +484,8 @@ func runGroupScenario(sc *gScenario, tw *TraceWriter, tmp string, seed int64) {
 		}
 	}
 	// tear down
-	if pub != nil {
-		g.DelRtmpPubSession(pub)
+	if pub != nil || rpub != nil {
+		delPub()
 	}
 	for _, c := range cons {
 		if c.kind == "rtmp" {
